@@ -3,7 +3,8 @@ import vf
 
 IMPORTS = ["From ZV Require Import Lib.Base Model.Tenant."]
 RULE = ("shard level (package index): 1-5 repositories (tenant id 1..3 or none, optional tombstone, file tombstones, 0-2 "
-        "sub-repositories, repo id possibly 0) in one simple shard or one compound shard built by index.Merge; 8 cases per shard: "
+        "sub-repositories, repo id possibly 0; names unique per tenant only: 40 % of the repositories take the name of a repository of another "
+        "tenant in the same shard) in one simple shard or one compound shard built by index.Merge; 8 cases per shard: "
         "context in {system, none, tenant1..4 (tenant4 owns nothing)} x random query of depth <= 2 over {content/file substring, RepoSet, "
         "RepoIDs, Repo, RepoRegexp, Meta, BranchesRepos, Const, And, Or, Not} x Search options x List field; 7/8 strict, 1/8 "
         "non-strict. sharded level (package search): 2-6 repositories over simple (possibly split) and compound shards loaded into "
